@@ -89,6 +89,7 @@ func (r *Run) Thorough() bool { return r.Tier == "thorough" }
 // Infra reports an infrastructure failure (never a VIOLATION) and exits 2.
 func Infra(format string, a ...any) {
 	fmt.Printf("INFRASTRUCTURE-ERROR: "+format+"\n", a...)
+	fmt.Fprintf(os.Stderr, "INFRASTRUCTURE-ERROR: "+format+"\n", a...)
 	os.Exit(2)
 }
 
